@@ -1,5 +1,6 @@
 import Mdsort.Proofs.World
 import Mdsort.Proofs.WorldFrameMain
+import Mdsort.Proofs.WorldStdinExample
 
 /-!
 # C04 - the exit status tells the truth (MDA contract, error isolation)
@@ -175,5 +176,81 @@ theorem C04_isolation_calls_main (env : PEnv) (orc : EvalOracles) (ok : Bool) (c
 
 /-- Non-vacuity: maildir mode. -/
 example : Proofs.examplePEnv.stdinMode = false := rfl
+/-- The spool is complete or `maildir_stdin` fails (finding F9, repaired: the copy loop continues a
+short `write`): for every input and EVERY fault plan, if `maildir_stdin` reports success then the
+spool entry it names (in the `new` directory of the temporary maildir) is bound to a file whose
+visible AND durable content is exactly the input - a short or failed `read` / `write` / `fsync` /
+`close` never yields success with truncated content. -/
+theorem C04_stdin_spool_complete (env : PEnv) (input : Bytes) (w : World) (plan : Plan) (hin : Proofs.World.StdinIs w input) :
+    let r := runPlan plan (maildirStdin env input) w 0 []
+    r.1.2.1 = false →
+      ∃ name fid, r.1.2.2 = some name ∧ r.2.1.lookup r.1.1.path name = some fid ∧
+        r.2.1.file fid = some { data := input, durable := input } :=
+  Proofs.stdin_spool_complete env input w plan hin
+
+/-! Non-vacuity: a 10-byte input; the fault-free plan and a plan whose first `write` transfers
+only 3 bytes both end with `failed = false`, so the conclusion says the spool holds all 10 bytes. -/
+example : (runPlan Plan.none (maildirStdin Proofs.StdinExample.env0 Proofs.StdinExample.input0)
+    Proofs.StdinExample.w0 0 []).1.2.1 = false := Proofs.StdinExample.ex_stdin_ok
+example : (runPlan Proofs.StdinExample.shortWrite (maildirStdin Proofs.StdinExample.env0 Proofs.StdinExample.input0)
+    Proofs.StdinExample.w0 0 []).1.2.1 = false := Proofs.StdinExample.ex_stdin_short_ok
+example :
+    let r := runPlan Proofs.StdinExample.shortWrite (maildirStdin Proofs.StdinExample.env0 Proofs.StdinExample.input0)
+      Proofs.StdinExample.w0 0 []
+    ∃ name fid, r.1.2.2 = some name ∧ r.2.1.lookup r.1.1.path name = some fid ∧
+      r.2.1.file fid = some { data := Proofs.StdinExample.input0, durable := Proofs.StdinExample.input0 } :=
+  C04_stdin_spool_complete _ _ _ _ Proofs.StdinExample.ex_stdinIs Proofs.StdinExample.ex_stdin_short_ok
+
+/-- The spool is always removed: in stdin mode, for every configuration with one `stdin` block, every
+rule set and action list (moves, flags, label, add-header, discard, exec, reject, in any number and
+order - no hypothesis on them), every input and every fault plan that injects nothing from the first
+call of the cleanup on (`Proofs.stdinCleanupStart` = number of calls made before `maildir_close`; in
+particular every plan whose faults all lie before the cleanup): every directory that exists when
+`main` returns existed before.  So neither the directory `mkdtemp` made, nor its `new`, nor any
+entry below them is left - on EVERY path: `mkdtemp` fails (nothing to remove), `mkdir` fails (root
+removed), `opendir` fails, `maildir_genname` fails, the copy fails, parse / evaluation /
+interpolation / action failure, no match, dry run, success. -/
+theorem C04_stdin_spool_removed (env : PEnv) (orc : EvalOracles) (conf : List ConfBlock) (files : Files) (input : Bytes)
+    (expr : Expr) (w : World) (plan : Plan) (hm : env.stdinMode = true) (hs : env.syntaxOnly = false)
+    (hc : Proofs.World.stdinExprs conf = [expr]) (hin : Proofs.World.StdinIs w input)
+    (hfresh : Proofs.World.SpoolFresh env w)
+    (hplan : ∀ j, Proofs.stdinCleanupStart plan env orc expr files input w ≤ j → plan j = none) :
+    ∀ q, ((runPlan plan (mainP env orc true conf files input) w 0 []).2.1.dir q).isSome → (w.dir q).isSome :=
+  Proofs.stdin_spool_removed env orc conf files input expr w plan hm hs hc hin hfresh hplan
+
+/-! Non-vacuity: the example run (10-byte message, `stdin { match all move "/m/inbox" }`) under the
+fault-free plan. -/
+example : ∀ q, ((runPlan Plan.none (mainP Proofs.StdinExample.env0 Proofs.StdinExample.orc0 true Proofs.StdinExample.conf0 []
+    Proofs.StdinExample.input0) Proofs.StdinExample.w0 0 []).2.1.dir q).isSome → (Proofs.StdinExample.w0.dir q).isSome :=
+  C04_stdin_spool_removed _ _ _ _ _ _ _ _ rfl rfl Proofs.StdinExample.ex_stdinExprs Proofs.StdinExample.ex_stdinIs
+    Proofs.StdinExample.ex_fresh (fun _ _ => rfl)
+
+/-- Exit status 0 means stored (= `C02_stdin_exit0`). -/
+theorem C04_stdin_zero_means_stored (env : PEnv) (orc : EvalOracles) (conf : List ConfBlock) (files : Files) (input : Bytes)
+    (expr : Expr) (w : World) (plan : Plan) (hm : env.stdinMode = true) (hs : env.syntaxOnly = false)
+    (hc : Proofs.World.stdinExprs conf = [expr]) (hin : Proofs.World.StdinIs w input)
+    (hfresh : Proofs.World.SpoolFresh env w) :
+    let r := runPlan plan (mainP env orc true conf files input) w 0 []
+    r.1.1 = 0 → Proofs.Delivered env orc expr input r.2.1 :=
+  Proofs.stdin_exit0 env orc conf files input expr w plan hm hs hc hin hfresh
+
+/-- In stdin mode the status is 75 iff an error occurred, else 1 iff a reject was executed, else 0 -
+as equivalences on the final loop state, for every configuration, input and fault plan. -/
+theorem C04_stdin_status (env : PEnv) (orc : EvalOracles) (ok : Bool) (conf : List ConfBlock) (files : Files) (input : Bytes)
+    (w : World) (plan : Plan) (hm : env.stdinMode = true) :
+    let r := (runPlan plan (mainP env orc ok conf files input) w 0 []).1
+    (r.1 = 75 ↔ r.2.error = true) ∧ (r.1 = 1 ↔ (r.2.error = false ∧ r.2.reject = true)) ∧
+      (r.1 = 0 ↔ (r.2.error = false ∧ r.2.reject = false)) :=
+  Proofs.stdin_status env orc ok conf files input w plan hm
+
+/-- A reject action sets the reject flag and does nothing else: the program it contributes is a
+plain `return` (no libc call at all, hence no mutating call). -/
+theorem C04_reject_no_call (env : PEnv) (mh : Match) (st : ExecSt) (h : mh.ty = .reject) :
+    execOne env mh st = Prog.ret ({ st with reject := true }, false) :=
+  Proofs.execOne_reject env mh st h
+
+example (st : ExecSt) : execOne Proofs.StdinExample.env0 { ty := .reject, lno := 1, part := 0 } st =
+    Prog.ret ({ st with reject := true }, false) :=
+  C04_reject_no_call _ _ _ rfl
 
 end Mdsort.Props
